@@ -36,6 +36,7 @@ def main():
         with open(a.replay) as f:
             d = json.load(f)
         obs = {o.name: o for o in module.obligations('thorough')}
+        obs.update({o.name: o for o in module.obligations(d.get('tier', 'thorough'))})
         ob = obs[d['obligation']]
         rp = ob.replay or (core.default_ch_replay(ob) if ob.kind == 'ch' else None)
         if rp is None:
